@@ -68,7 +68,7 @@ func (x *Exec) assertAxioms() {
 				env.pkg = pk.Types
 			}
 			env.old = env.st
-			x.vc.assert(x.evalBool(env, ax.Expr))
+			x.vc.decl(qMark + "(assert " + x.evalBool(env, ax.Expr) + ")")
 			x.usedExterns["axiom: "+ax.Text] = true
 		}
 		if !added {
@@ -281,6 +281,10 @@ func verifyLemma(p *Prog, db *ContractDB, lm *Lemma, prop string) (u *Unit) {
 	}
 	x.top = &ssa.Function{}
 	x.topName = "lemma:" + lm.Name
+	x.lemmaInline = map[string]bool{}
+	for _, n := range lm.Inline {
+		x.lemmaInline[n] = true
+	}
 	defer func() {
 		if r := recover(); r != nil {
 			u.Err = fmt.Sprintf("engine panic: %v", r)
